@@ -89,7 +89,17 @@ def call(
             and value.dtype.kind in "bui"
             and value.dtype.itemsize < numpy.dtype(int).itemsize
         ):
-            parameters[name] = value.astype(int)
+            parameters[name] = value = value.astype(int)
+        # With inexact coefficients the value is a float: integer arguments are
+        # raised to their powers as floats, which do not wrap around.
+        if poly.dtype.kind in "fc" and not isinstance(value, numpoly.ndpoly):
+            if isinstance(value, (bool, int)):
+                parameters[name] = float(value)
+            elif (
+                isinstance(value, (numpy.generic, numpy.ndarray))
+                and value.dtype.kind in "bui"
+            ):
+                parameters[name] = value.astype(float)
 
     # There can only be one shape:
     ones = numpy.ones((), dtype=int)
